@@ -54,9 +54,12 @@ META = {'design_ref': 'DESIGN.md section 7 / C11',
                'C11_data_before_connect_flushed_is_error, C11_connack_wrong_state_is_error; decoder robustness: C11_decoder_packets_total / '
                'C11_decoder_never_panics (no byte string, under any chunking, makes the decoder model panic), C11_allocator_never_panics. The engine theorems '
                'are stated for abstract codec / validator / resolver components satisfying comps_ok (each component preserves its own invariant and does not '
-               'panic under it). On the implementation the same statements are judged on every generated history (hostile profile: valid packets in illegal '
-               'states, adversarial / duplicate / wrong-type acks, structurally mutated packets, garbage, data while a write is pending, timers at every step, '
-               'Duration::MAX-like timeouts) by mon_no_panic / mon_close_clean / mon_error_absorbing; they found D6, D9, D10, D14 on the original code (all '
-               'fixed).',
+               'panic under it). That caveat is DISCHARGED for the concrete model the correspondence check executes: instance_comps_ok '
+               '(EngineProofs/WFInstance.v) shows the framing decoder, step encoder, LRU / manual / null resolvers and validators of Engine/Instance.v satisfy '
+               'comps_ok, giving C11_instance_reachable_well_formed, C11_instance_decoder_well_formed, C11_instance_no_panic, C11_instance_close_clean for '
+               'every configuration, resolver kind and event history (premises only ok_cfg and Forall ok_event). On the implementation the same statements are '
+               'judged on every generated history (hostile profile: valid packets in illegal states, adversarial / duplicate / wrong-type acks, structurally '
+               'mutated packets, garbage, data while a write is pending, timers at every step, Duration::MAX-like timeouts) by mon_no_panic / mon_close_clean '
+               '/ mon_error_absorbing; they found D6, D9, D10, D14 on the original code (all fixed).',
  'technique': 'machine-checked proof in Coq over the engine model + lock-step correspondence of the extracted model with the implementation + extracted '
               'monitors on the implementation trace'}
